@@ -24,6 +24,9 @@ def run(rep, tier):
     import dense
     rep.rule("R-BDF-DENSE", "BDF dense block: writer and reader agree on which backward differences enter the interpolant for every order")
     dense.r_bdf_dense(rep, f)
+    rep.rule("R-BDF-INTERP", "BDF: with the dense block solve() stores, interpolate() passes through the last k+1 solution values: u(x) = y_new, u(xold) = y_old, u(x - m h) = y_(n+1-m)")
+    import bdfx
+    bdfx.r_bdf_interp(rep, f)
     rep.explanation = ("Proof-level for RK4, RK23, DOPRI5, DOP853: the polynomial the interpolant evaluates is reconstructed from X::interpolate and the "
                        "coefficient blocks X::solve stores, and the continuous order conditions are discharged coefficient-wise in theta for all trees "
                        "up to the advertised dense order q (3, 3, 4, 7). Not decided: error constants; BDF/Radau numerical accuracy after step changes.")
